@@ -736,6 +736,16 @@ func (c *Conn) deliver(d int, ch *Chooser) {
 	if n == len(seg.Data) {
 		h.inflight = h.inflight[1:]
 		closeAfter = seg.CloseAfter
+		// coalescing: segments that are due at the same instant may reach the reader in one piece
+		// (what a reader gets from one Read is not aligned with what the sender wrote)
+		for c.net.Split && !closeAfter && len(h.inflight) > 0 && h.inflight[0].Due >= 0 && h.inflight[0].Due <= w.Now() && ch.Choose(2) == 1 {
+			next := h.inflight[0]
+			h.inflight = h.inflight[1:]
+			part = append(append([]byte{}, part...), next.Data...)
+			n += len(next.Data)
+			closeAfter = next.CloseAfter
+			c.net.fired("coalesce")
+		}
 	} else {
 		h.inflight[0].Data = seg.Data[n:]
 		c.net.fired("split")
